@@ -142,8 +142,8 @@ Print Assumptions C15_member_reads_own.
 
 (* non-vacuity: the hypotheses of the positive theorems are met by concrete table entries and states *)
 Example C15_nonvacuous :
-  in_table (SUpdate (mkFetch QAdmin SelNameNsOrId) true true) /\
-  shape_guarded (SUpdate (mkFetch QAdmin SelNameNsOrId) true true) = true /\
+  in_table (SUpdate (mkFetch QAdmin SelNameNsOrId) GAccess true) /\
+  shape_guarded (SUpdate (mkFetch QAdmin SelNameNsOrId) GAccess true) = true /\
   (let d := mkDb [mkRes 1 Environment 1 Private 5 0 0 false; mkRes 2 Environment 2 Private 5 0 0 false] [] in
    wf_db d /\ visible d (mkCtx 2 false) (mkRes 1 Environment 1 Private 5 0 0 false) = false /\
    fst (exec_op (SGet (mkFetch QSecure SelName)) d (mkCtx 2 false)
